@@ -2,7 +2,8 @@
 
 Differential monitor + reference model: one random process set is entered through six API routes (Event objects,
 Transitions carrying their rate inside event=, legacy transition=/birth_death= lists, incremental add_* calls in
-random order, explicit ODE equations, shuffled order with string / limit-tuple declarations); every route's ODE
+random order, explicit ODE equations, shuffled order with string / limit-tuple declarations, same-rate processes grouped into
+multi-transition Events given to the constructor or added incrementally); every route's ODE
 (symbolic) and ode/jacobian/eventRateVector evaluations must agree with each other and with the independent reference.
 """
 import contextlib
@@ -17,13 +18,13 @@ from verifkit.ref.symbolic import RefModel, rename_to_ref, same_expr
 
 ID = "C12"
 RULE = ("random process sets (1-4 states, 1-3 parameters, 1-6 single-transition processes T/B/D with numeric or symbolic magnitudes and "
-        "five rate forms) rendered through six routes, births named by origin or by destination at random, fresh Transition objects per "
+        "five rate forms, 35 % of the processes sharing the rate of an earlier one) rendered through eight routes (incl. processes with a common rate grouped into one multi-transition Event, member and group order random), births named by origin or by destination at random, fresh Transition objects per "
         "route. Non-trivial: set with >=1 birth, >=1 death and >=2 transitions; distinct by hash of the process set")
 ASSUMPTIONS = ["the Event route and the independent reference define the intended model; all other routes must match them"]
 ANCHORS = ["BaseOdeModel.add_transition", "BaseOdeModel.add_event", "BaseOdeModel.add_birth_death", "BaseOdeModel.add_ode",
            "BaseOdeModel._add_list_attr", "BaseOdeModel._add_list_attr_with_limits", "DeterministicOde.get_ode_eqn"]
 CASE_TIMEOUT = 180
-ROUTES = ["event", "tr_in_event", "legacy", "incremental", "ode", "shuffled_strings"]
+ROUTES = ["event", "tr_in_event", "legacy", "incremental", "ode", "shuffled_strings", "grouped", "grouped_incremental"]
 
 
 def plan(tier):
@@ -35,6 +36,7 @@ def floors(tier):
     f = {"nontrivial": 15, "counter:route_pairs_compared": 800, "counter:symbolic_comparisons": 1500,
          "class:non-unit-magnitude": 40, "class:symbolic-magnitude": 10, "class:has-birth": 40, "class:has-death": 40,
          "counter:births_by_origin": 30, "counter:births_by_destination": 30,
+         "counter:multi_member_events": 100, "counter:mixed_magnitude_events": 30,
          "reach:BaseOdeModel.add_transition": 100, "reach:BaseOdeModel.add_birth_death": 100, "reach:BaseOdeModel.add_ode": 100}
     return f
 
@@ -46,6 +48,8 @@ def gen_procs(rng):
     out = []
     for _ in range(rng.randint(2, 7)):
         rate = G.gen_rate(rng, S, P, [], ["lin", "mass", "sat", "exp", "const"])
+        if out and rng.random() < 0.35:
+            rate = rng.choice(out)[3]      # processes driven by one rate: may equivalently be entered as ONE multi-transition Event
         tt = rng.choice(["T", "T", "B", "D"]) if nS > 1 else rng.choice(["B", "D"])
         mag = rng.choice(["1", "1", "2", "3", "0.5", rng.choice(P)])
         if tt == "T":
@@ -111,6 +115,32 @@ def build_route(name, S, P, pr, rng, counters):
                 f[d] += R
         return SimulateOde(state=list(S), param=list(P),
                            ode=[Transition(origin=s, equation=str(f[s]), transition_type="ODE") for s in S])
+    if name in ("grouped", "grouped_incremental"):
+        # processes that share a rate are members of one Event (random member order, random group order): the same process set
+        groups = {}
+        for p in pr:
+            groups.setdefault(p[3], []).append(p)
+        gl = list(groups.items())
+        rng.shuffle(gl)
+        evs = []
+        for r, members in gl:
+            members = list(members)
+            rng.shuffle(members)
+            if len(members) > 1:
+                counters["multi_member_events"] += 1
+                mags = [q[4] for q in members]
+                if any(mg != "1" for mg in mags) and any(mg == "1" for mg in mags):
+                    counters["mixed_magnitude_events"] += 1
+            evs.append(Event(rate=r, transition_list=[tr(q, False, bo(), counters) for q in members]))
+        if name == "grouped":
+            return SimulateOde(state=list(S), param=list(P), event=evs)
+        m = SimulateOde(state=list(S), param=list(P))
+        for e in evs:
+            if rng.random() < 0.5:
+                m.add_event(e)
+            else:
+                m.event_list = [e]
+        return m
     if name == "shuffled_strings":
         q = list(pr)
         rng.shuffle(q)
@@ -124,7 +154,8 @@ def run_case(rng, idx, tier, lane, ctx):
     S, P, pr = gen_procs(rng)
     spec = {"states": S, "params": P, "derived": [], "odes": [], "limits": None, "state_decl": "list", "param_decl": "list",
             "events": [{"rate": p[3], "trans": [[p[0], p[1], p[2], p[4]]]} for p in pr]}
-    counters = {"route_pairs_compared": 0, "symbolic_comparisons": 0, "births_by_origin": 0, "births_by_destination": 0}
+    counters = {"route_pairs_compared": 0, "symbolic_comparisons": 0, "births_by_origin": 0, "births_by_destination": 0,
+                "multi_member_events": 0, "mixed_magnitude_events": 0}
     wit = []
 
     def bad(what, **kw):
@@ -147,7 +178,7 @@ def run_case(rng, idx, tier, lane, ctx):
                 sym = rename_to_ref(sympy.Matrix(m.get_ode_eqn()), ref)
                 ode = np.asarray(m.ode(np.array(x), t), dtype=float).reshape(-1)
                 jac = np.asarray(m.jacobian(np.array(x), t), dtype=float)
-                rates = None if name == "ode" else sorted(np.asarray(m.eventRateVector(np.array(x), t), dtype=float).reshape(-1).tolist())
+                rates = None if name in ("ode", "grouped", "grouped_incremental") else sorted(np.asarray(m.eventRateVector(np.array(x), t), dtype=float).reshape(-1).tolist())
                 plist = [str(p) for p in m.param_list]
                 slist = [str(s) for s in m.state_list]
         except Exception as e:
